@@ -23,6 +23,11 @@ class HistoricallyTimedOperation(AbstractDenseTimeOnlineOperation):
         begin = self.begin
         end = self.end
 
+        # an operand may repeat, as the first sample of a batch, the last sample
+        # of its previous batch (the binary operations skip it in the same way)
+        if sample and sample[0][0] == self.residual_start:
+            sample = sample[1:]
+
         if sample:
             # update when the residuals start in this iteration
             self.residual_start = sample[-1][0]
